@@ -5,9 +5,318 @@ Tied to the real functions by harness group `layout.model` (`hl.*` driver comman
 -/
 import FontVerif.Model.HandLayout
 import FontVerif.Lemmas.ReadIter
+import FontVerif.Lemmas.HandLayout
 set_option linter.unusedVariables false
 set_option linter.unusedSimpArgs false
 namespace FontVerif.C01HandLayout
-open FontVerif FontVerif.ReadIter FontVerif.HandRead FontVerif.HandLayout
+open FontVerif FontVerif.ReadIter FontVerif.HandRead FontVerif.HandLayout FontVerif.Layout
+
+/-! ## Coverage tables
+
+All statements hold for ARBITRARY record data — unsorted, overlapping, inverted (`start > end`) —
+because the binary search is the transcription of `core`'s loop, whose index stays inside the slice
+whatever the comparison function answers (`bsLoop_bounds`). -/
+
+/-- **`CoverageFormat1::get` never panics and returns an index only for a covered glyph**: `Some(i)`
+implies `gid ≤ 0xFFFF`, `i < glyph_count` and `glyph_array[i] == gid`. -/
+theorem coverage1_get_safe (xs : List Nat) (g : Nat) (hlen : xs.length ≤ 65536) :
+    cov1Get xs g ≠ .trap ∧
+    ∀ i, cov1Get xs g = .val (some i) → g < 65536 ∧ i < xs.length ∧ xs[i]? = some g :=
+  ⟨cov1Get_ne_trap xs g, fun i h => cov1Get_some hlen h⟩
+
+/-- **`CoverageFormat2::get` never panics** — neither the indexing `range_records()[idx]` nor the
+`u16` subtraction `gid - start_glyph_id` (the search only answers `Ok(idx)` for a record with
+`start ≤ gid ≤ end`) nor the index addition (`checked_add`) — **and returns an index only for a glyph
+inside a record**: `Some(i)` implies some record has `start ≤ gid ≤ end` and
+`i = start_coverage_index + (gid − start) ≤ 0xFFFF`.  It computes exactly C06's `Layout.Coverage.get`. -/
+theorem coverage2_get_safe (rs : List RangeRec) (g : Nat) :
+    cov2Get rs g ≠ .trap ∧ cov2Get rs g = .val ((Coverage.fmt2 rs).get g) ∧
+    ∀ i, cov2Get rs g = .val (some i) →
+      g < 65536 ∧ i < 65536 ∧ ∃ r ∈ rs, r.start ≤ g ∧ g ≤ r.end_ ∧ i = r.startCov + (g - r.start) := by
+  refine ⟨?_, cov2Get_val rs g, fun i h => cov2Get_some h⟩
+  rw [cov2Get_val]; simp
+
+/-- `CoverageTable::get` for both formats -/
+theorem coverage_get_never_traps (c : Coverage) (g : Nat) : covGet c g ≠ .trap := by
+  cases c with
+  | fmt1 xs => exact cov1Get_ne_trap xs g
+  | fmt2 rs => exact (coverage2_get_safe rs g).1
+
+/-- **`CoverageTable::iter` yields exactly Σ max(0, end − start + 1) glyphs** (format 1: `glyph_count`),
+at most `65536 · range_count` for `u16` fields, and every glyph it yields lies inside one of the
+records: the iterator is a `flat_map` over the record list of `RangeInclusive<u16>`s, empty for an
+inverted record. -/
+theorem coverage_iter_bounded (rs : List RangeRec) :
+    (covIter (.fmt2 rs)).length = popSum (rs.map (fun r => (r.start, r.end_))) ∧
+    ((∀ r ∈ rs, r.end_ < 65536) → (covIter (.fmt2 rs)).length ≤ 65536 * rs.length) ∧
+    ∀ g ∈ covIter (.fmt2 rs), ∃ r ∈ rs, r.start ≤ g ∧ g ≤ r.end_ := by
+  refine ⟨expandRanges_length rs, ?_, fun g hg => mem_expandRanges hg⟩
+  intro h
+  have := popSum_le (rs.map (fun r => (r.start, r.end_))) (by
+    intro p hp
+    simp only [List.mem_map] at hp
+    obtain ⟨r, hr, rfl⟩ := hp
+    exact h r hr)
+  simp only [covIter, expandRanges_length, List.length_map] at this ⊢
+  exact this
+
+/-- **`population` never overflows** and equals the number of glyphs `iter` yields: the `usize` fold
+`acc + record.population()` stays below `65536 · 65535`, and the guarded `end - start + 1` never
+underflows (inverted records count 0). -/
+theorem coverage_population_total (c : Coverage) (hc : U16Cov c) : covPop c = .val (covIter c).length := by
+  cases c with
+  | fmt1 xs => rfl
+  | fmt2 rs =>
+    obtain ⟨hlen, hf⟩ := hc
+    simp only [covPop, covIter, expandRanges_length]
+    have hb := popSum_le (rs.map (fun r => (r.start, r.end_))) (by
+      intro p hp
+      simp only [List.mem_map] at hp
+      obtain ⟨r, hr, rfl⟩ := hp
+      exact (hf r hr).2.1)
+    simp only [List.length_map] at hb
+    have := popFold_val (rs.map (fun r => (r.start, r.end_))) 0 (by
+      have : 65536 * rs.length ≤ 65536 * 65536 := Nat.mul_le_mul_left _ (by omega)
+      simp only [MAXU]; omega)
+    simpa using this
+
+/-- **`intersects` never panics and never reports a glyph that is not covered**, whichever side of the
+cost comparison `count > glyphs.len().saturating_mul(num_bits) / 2` is taken: `true` implies a member
+of the set lies in the glyph array / inside a record. -/
+theorem coverage_intersects_safe (c : Coverage) (s : GSet) (hc : U16Cov c) :
+    ∃ b, covIntersects c s = .val b ∧
+      (b = true → ∃ g ∈ s, match c with
+        | .fmt1 xs => g ∈ xs
+        | .fmt2 rs => ∃ r ∈ rs, r.start ≤ g ∧ g ≤ r.end_) := by
+  cases c with
+  | fmt1 xs =>
+    simp only [covIntersects, cov1Intersects]
+    split
+    · obtain ⟨b, hb, hb2⟩ := anyR_val (fun g => (cov1Get xs g).bind (fun r => .val r.isSome)) s (by
+        intro g _
+        cases hg : cov1Get xs g with
+        | trap => exact absurd hg (cov1Get_ne_trap xs g)
+        | val v => simp [Res.bind])
+      refine ⟨b, hb, fun hbt => ?_⟩
+      obtain ⟨g, hg, hfg⟩ := hb2 hbt
+      refine ⟨g, hg, ?_⟩
+      cases hv : cov1Get xs g with
+      | trap => simp [hv, Res.bind] at hfg
+      | val v =>
+        cases v with
+        | none => simp [hv, Res.bind] at hfg
+        | some i =>
+          have := (cov1Get_some (Nat.le_of_lt hc.1) hv).2.2
+          exact List.mem_of_getElem? this
+    · refine ⟨_, rfl, fun hbt => ?_⟩
+      simp only [List.any_eq_true] at hbt
+      obtain ⟨g, hg, hs⟩ := hbt
+      exact ⟨g, by simpa using hs, hg⟩
+  | fmt2 rs =>
+    simp only [covIntersects, cov2Intersects]
+    split
+    · obtain ⟨b, hb, hb2⟩ := anyR_val (fun g => (cov2Get rs g).bind (fun r => .val r.isSome)) s (by
+        intro g _
+        rw [cov2Get_val]; simp [Res.bind])
+      refine ⟨b, hb, fun hbt => ?_⟩
+      obtain ⟨g, hg, hfg⟩ := hb2 hbt
+      refine ⟨g, hg, ?_⟩
+      cases hv : cov2Get rs g with
+      | trap => simp [hv, Res.bind] at hfg
+      | val v =>
+        cases v with
+        | none => simp [hv, Res.bind] at hfg
+        | some i =>
+          obtain ⟨_, _, r, hr, h1, h2, _⟩ := cov2Get_some hv
+          exact ⟨r, hr, h1, h2⟩
+    · refine ⟨_, rfl, fun hbt => ?_⟩
+      simp only [List.any_eq_true, rangeIntersects, GSet.intersectsRange, decide_eq_true_eq] at hbt
+      obtain ⟨r, hr, g, hg, h1, h2⟩ := hbt
+      exact ⟨g, hg, r, hr, h1, h2⟩
+
+/-! ## Class definitions -/
+
+/-- **`ClassDefFormat1::get` never panics** (the `u16` subtraction `gid - start_glyph_id` is guarded by
+`gid < start → 0`, the array access is `get(..).unwrap_or(0)`) **and a non-zero class is the array entry
+of that glyph**. -/
+theorem classdef1_get_safe (start : Nat) (cs : List Nat) (g : Nat) :
+    ∃ c, cls1Get start cs g = .val c ∧ (c ≠ 0 → start ≤ g ∧ cs[g - start]? = some c) := by
+  unfold cls1Get
+  by_cases h : g < start
+  · exact ⟨0, by simp [h], by simp⟩
+  · simp only [h, if_false, subTrap, Res.bind]
+    have hsg : start ≤ g := by omega
+    rw [if_pos hsg]
+    refine ⟨_, rfl, fun hc => ⟨hsg, ?_⟩⟩
+    cases hg : cs[g - start]? with
+    | none => simp [hg] at hc
+    | some v => simp
+
+/-- **`ClassDefFormat2::get` returns a non-zero class only from a record that contains the glyph**
+(`Err(ix) → ix.saturating_sub(1)`, `records.get(ix)`: no index can panic) -/
+theorem classdef2_get_safe (rs : List ClassRangeRec) (g c : Nat) (h : cls2Get rs g = .val c) (hc : c ≠ 0) :
+    ∃ r ∈ rs, r.start ≤ g ∧ g ≤ r.end_ ∧ r.cls = c := by
+  simp only [cls2Get, ClassDef.get] at h
+  injection h with h
+  split at h
+  · rename_i r hr
+    split at h
+    · rename_i hin
+      exact ⟨r, List.mem_of_getElem? hr, hin.1, hin.2, h⟩
+    · exact absurd h.symm hc
+  · exact absurd h.symm hc
+
+/-- `ClassDef::get` never panics -/
+theorem classdef_get_never_traps (c : ClassDef) (g : Nat) : clsGet c g ≠ .trap := by
+  cases c with
+  | fmt1 s cs =>
+    obtain ⟨v, hv, _⟩ := classdef1_get_safe s cs g
+    simp [clsGet, hv]
+  | fmt2 rs => simp [clsGet, cls2Get]
+
+/-- **`ClassDef::iter` is bounded**: format 1 yields `glyph_count` items whose glyph ids stay `u16`s
+(`saturating_add`), format 2 yields Σ max(0, end − start + 1) ≤ `65536 · class_range_count` items, each
+inside its record and carrying that record's class. -/
+theorem classdef_iter_bounded (c : ClassDef) :
+    (match c with
+      | .fmt1 s cs => (clsIter c).length = cs.length ∧ ∀ p ∈ clsIter c, p.1 ≤ 65535
+      | .fmt2 rs => (clsIter c).length = popSum (rs.map (fun r => (r.start, r.end_))) ∧
+          ((∀ r ∈ rs, r.end_ < 65536) → (clsIter c).length ≤ 65536 * rs.length) ∧
+          ∀ p ∈ clsIter c, ∃ r ∈ rs, r.start ≤ p.1 ∧ p.1 ≤ r.end_ ∧ p.2 = r.cls) := by
+  cases c with
+  | fmt1 s cs =>
+    simp only [clsIter, cls1Iter]
+    refine ⟨by simp, ?_⟩
+    intro p hp
+    obtain ⟨i, hi, hp2⟩ := List.getElem_of_mem hp
+    simp only [List.getElem_zipWith] at hp2
+    rw [← hp2]
+    exact Nat.min_le_right _ _
+  | fmt2 rs =>
+    simp only [clsIter]
+    refine ⟨cls2Iter_length rs, ?_, fun p hp => mem_cls2Iter hp⟩
+    intro h
+    have := popSum_le (rs.map (fun r => (r.start, r.end_))) (by
+      intro p hp
+      simp only [List.mem_map] at hp
+      obtain ⟨r, hr, rfl⟩ := hp
+      exact h r hr)
+    simp only [cls2Iter_length, List.length_map] at this ⊢
+    exact this
+
+/-- `ClassDef::population` never overflows and equals the number of items `iter` yields -/
+theorem classdef_population_total (c : ClassDef) (hc : U16Cls c) : clsPop c = .val (clsIter c).length := by
+  cases c with
+  | fmt1 s cs => simp [clsPop, clsIter, cls1Iter]
+  | fmt2 rs =>
+    obtain ⟨hlen, hf⟩ := hc
+    simp only [clsPop, clsIter, cls2Iter_length]
+    have hb := popSum_le (rs.map (fun r => (r.start, r.end_))) (by
+      intro p hp
+      simp only [List.mem_map] at hp
+      obtain ⟨r, hr, rfl⟩ := hp
+      exact (hf r hr).2.1)
+    simp only [List.length_map] at hb
+    have := popFold_val (rs.map (fun r => (r.start, r.end_))) 0 (by
+      have : 65536 * rs.length ≤ 65536 * 65536 := Nat.mul_le_mul_left _ (by omega)
+      simp only [MAXU]; omega)
+    simpa using this
+
+/-- the hypotheses `U16Cov` / `U16Cls` hold for everything the generated readers hand out -/
+theorem readers_hand_out_u16 (d : List Nat) (hb : ∀ b ∈ d, b < 256) :
+    (∀ c, covRead d = .ok c → U16Cov c) ∧ (∀ c, clsRead d = .ok c → U16Cls c) :=
+  ⟨covRead_u16 d hb, clsRead_u16 d hb⟩
+
+/-! ## Device tables -/
+
+/-- **`Device::read` accepts exactly `value_count` delta words inside the data** -/
+theorem device_read_words (d : List Nat) (v : Dev) (h : devRead d = .ok v) :
+    v.words.length = valueCount v.fmt v.start v.end_ ∧ 6 + 2 * v.words.length ≤ d.length := by
+  unfold devRead at h
+  cases hs : readAt d 0 2 with
+  | none => simp [hs] at h
+  | some s =>
+    cases he : readAt d 2 2 with
+    | none => simp [hs, he] at h
+    | some e =>
+      cases hf : readAt d 4 2 with
+      | none => simp [hs, he, hf] at h
+      | some f =>
+        simp only [hs, he, hf, checkedMul] at h
+        by_cases hm : valueCount f s e * 2 ≤ MAXU
+        · rw [if_pos hm] at h
+          simp only [] at h
+          by_cases hl : 6 + valueCount f s e * 2 ≤ d.length
+          · rw [if_pos hl] at h
+            injection h with h
+            subst h
+            simp only [u16sAt, List.length_map, List.length_range]
+            exact ⟨trivial, by omega⟩
+          · rw [if_neg hl] at h; cases h
+        · rw [if_neg hm] at h; cases h
+
+/-- **`Device::iter` never panics and yields exactly `end_size − start_size + 1` deltas** for the three
+delta formats with `start_size ≤ end_size`, and nothing otherwise (inverted size range, unknown format,
+`VariationIndex`) — for every table whose word count is `value_count(..)`, which is what `Device::read`
+guarantees.  Every delta is decoded from one word with a shift below 16 into slot `i < 8` and is an
+`i8`.  In particular `max_per_word = 16 / bits` is never evaluated with `bits = 0`. -/
+theorem device_iter_exact (v : Dev) (hw : v.words.length = valueCount v.fmt v.start v.end_) :
+    ∃ vs, devIter v = .val vs ∧
+      vs.length = (if (v.fmt = 1 ∨ v.fmt = 2 ∨ v.fmt = 3) ∧ v.start ≤ v.end_ then v.end_ - v.start + 1 else 0) ∧
+      ∀ x ∈ vs, -128 ≤ x ∧ x ≤ 127 := by
+  rw [valueCount_eq] at hw
+  unfold devIter
+  by_cases hf : v.fmt = 1 ∨ v.fmt = 2 ∨ v.fmt = 3
+  · obtain ⟨vs, h1, h2, h3⟩ := devWords_val v.fmt hf
+      (if v.fmt = 1 then 8 else if v.fmt = 2 then 4 else if v.fmt = 3 then 2 else 0)
+      (by rcases hf with h | h | h <;> simp [h]) v.words (v.end_ - v.start + 1)
+    refine ⟨vs, h1, ?_, h3⟩
+    rw [h2]
+    simp only [hf, true_and]
+    rcases hf with h | h | h <;> simp only [h] at hw ⊢ <;> simp at hw ⊢ <;> split <;> omega
+  · have h1 : v.fmt ≠ 1 := fun h => hf (Or.inl h)
+    have h2 : v.fmt ≠ 2 := fun h => hf (Or.inr (Or.inl h))
+    have h3 : v.fmt ≠ 3 := fun h => hf (Or.inr (Or.inr h))
+    simp only [h1, h2, h3, if_false] at hw
+    have : v.words = [] := List.eq_nil_of_length_eq_zero hw
+    exact ⟨[], by simp [this, devWords], by simp [hf], by simp⟩
+
+/-- the panic is representable: a table of a format without deltas that nevertheless carried a delta
+word WOULD divide by zero — `value_count` returning 0 for those formats is what excludes it -/
+theorem device_iter_trap_without_value_count (v : Dev) (hf : ¬ (v.fmt = 1 ∨ v.fmt = 2 ∨ v.fmt = 3))
+    (hw : v.words ≠ []) : devIter v = .trap := by
+  unfold devIter
+  cases hws : v.words with
+  | nil => exact absurd hws hw
+  | cons w rest => simp [devWords, iterPackedValues_trap w v.fmt _ hf, Res.bind]
+
+/-- `Device::read` + `Device::iter` on any bytes: no panic -/
+theorem device_read_iter_never_traps (d : List Nat) (v : Dev) (h : devRead d = .ok v) : devIter v ≠ .trap := by
+  obtain ⟨vs, hv, _⟩ := device_iter_exact v (device_read_words d v h).1
+  simp [hv]
+
+/-! ## non-vacuity -/
+
+/-- the spec examples of layout.rs -/
+example : (covRead [0, 1, 0, 5, 0, 1, 0, 7, 0, 13, 0, 27, 0, 44]).toOption.map (fun c => (covGet c 7, covGet c 45)) =
+    some (.val (some 1), .val none) := by decide +kernel
+example : (covRead [0, 2, 0, 2, 0, 5, 0, 9, 0, 0, 0, 30, 0, 39, 0, 5]).toOption.map
+    (fun c => (covGet c 32, covGet c 10, (covIter c).length, covPop c)) =
+    some (.val (some 7), .val none, 15, .val 15) := by decide +kernel
+/-- index overflow: `start_coverage_index + (gid − start) > 0xFFFF` is `None`, not a panic -/
+example : cov2Get [⟨10, 20, 65530⟩] 16 = .val none ∧ cov2Get [⟨10, 20, 65530⟩] 15 = .val (some 65535) := by decide +kernel
+/-- unsorted records: the answer is determined (here: a covered glyph is missed), never a panic -/
+example : cov2Get [⟨30, 39, 0⟩, ⟨5, 9, 10⟩, ⟨1, 2, 15⟩] 7 = .val none := by decide +kernel
+/-- inverted record: no glyphs, population 0 -/
+example : covIter (.fmt2 [⟨9, 5, 0⟩, ⟨3, 4, 0⟩]) = [3, 4] ∧ covPop (.fmt2 [⟨9, 5, 0⟩, ⟨3, 4, 0⟩]) = .val 2 := by decide
+example : U16Cov (.fmt2 [⟨9, 5, 0⟩, ⟨3, 4, 0⟩]) := by simp [U16Cov]
+example : cls1Iter 65534 [1, 2, 3] = [(65534, 1), (65535, 2), (65535, 3)] := by decide
+example : cls1Get 10 [4, 5] 11 = .val 5 ∧ cls1Get 10 [4, 5] 9 = .val 0 ∧ cls1Get 10 [4, 5] 12 = .val 0 := by decide
+/-- `delta_decode_all` of layout.rs -/
+example : (devRead [0, 7, 0, 13, 0, 3, 1, 244, 30, 245, 101, 8, 42, 0]).toOption.map devIter =
+    some (.val [1, -12, 30, -11, 101, 8, 42]) := by decide
+/-- `start_size > end_size`: no words, no values -/
+example : (devRead [0, 1, 0, 0, 0, 1]).toOption.map devIter = some (.val []) := by decide
+example : iterPackedValues 0x8800 1 3 = .val [-2, 0, -2] ∧ iterPackedValues 0x1234 0 3 = .trap := by decide
 
 end FontVerif.C01HandLayout
